@@ -1,7 +1,7 @@
 #!/bin/sh
 # Runs every mutant of mutants/mutants.json against the checks of the properties it is meant to break.
 ROOT=$(cd "$(dirname "$0")/.." && pwd)
-python3 - "$ROOT" <<'PY' | while read id props; do "$ROOT/tools/mutate.sh" "$ROOT/mutants/$id.patch" $props; done
+python3 - "$ROOT" <<'PY' | while read id props; do "$ROOT/tools/mutate.sh" "$ROOT/mutants/$id.patch" $props < /dev/null; done
 import json, sys
 for m in json.load(open(sys.argv[1] + "/mutants/mutants.json")):
     if m["builds_and_passes_baseline"]:
